@@ -73,7 +73,20 @@ def main(argv):
         ctx.driver_ok = driver_ok
         ctx.broken = broken
         ctx.disagreements = []
-        mod.run(ctx)
+        try:
+            mod.run(ctx)
+        except Infra:
+            raise
+        except Exception as e:  # noqa: BLE001
+            # The harness expected the implementation to behave as it does on the unchanged tree and it raised
+            # instead: that is a broken correspondence (handled like any other), unless the failure is the harness's own.
+            tb = traceback.extract_tb(e.__traceback__)
+            inside = [f for f in tb if "/joserfc/" in f.filename]
+            if not inside:
+                raise
+            where = f"{inside[-1].filename.split('/joserfc/')[-1]}:{inside[-1].lineno}"
+            ctx.disagreements.append({"suite": "harness-call", "request": f"{type(e).__name__} raised at {where} in a call the harness makes unconditionally",
+                                      "model": "returns", "impl": "".join(traceback.format_exception(e))[-1500:]})
 
         found_before = sum(1 for v in ctx.violations if v[1])
         if (broken or ctx.disagreements) and not found_before:
